@@ -126,6 +126,22 @@ def kernel_case(rec, n, bins, dtype, seed, only=None, aff=0):
                       "array", f"{type(e).__name__}: {e}"[:200])
         return
     tol0 = 1e-12 if dtype == np.float64 else 1e-6
+    if only is None and out.shape == (P, n + 1, len(bins) - 1):
+        # columns are independent: the same columns handed over in smaller blocks (grouped by the largest / the smallest
+        # target_data value of the column, so that what else sits in the block differs) give bit for bit the same answer
+        for gname, keyf in (("max", max), ("min", min)):
+            groups = {}
+            for p, th in enumerate(profiles):
+                groups.setdefault(keyf(th), []).append(p)
+            for gk, idxs in sorted(groups.items()):
+                sub = interp_1d_conservative(np.ascontiguousarray(phi_b[idxs]), np.ascontiguousarray(theta_b[idxs]), np.array(bins, dtype=dtype))
+                rec.calls += 1
+                if not np.array_equal(sub, out[idxs], equal_nan=True):
+                    bad = [idxs[q] for q in range(len(idxs)) if not np.array_equal(sub[q], out[idxs[q]], equal_nan=True)]
+                    rec.case(("k", n, tuple(lat_bins), str(dtype)), True, calls=0)
+                    rec.violation("kernel", "column-depends-on-the-other-columns-of-its-block", dict(level="kernel", n=n, bins=lat_bins, dtype=str(np.dtype(dtype)), profile=list(profiles[bad[0]]), aff=aff, grouped_by=gname),
+                                  out[bad[0]], sub[idxs.index(bad[0])])
+                    return
     bins = lat_bins
     for p, th in enumerate(profiles):
         case = dict(level="kernel", n=n, bins=lat_bins, dtype=str(np.dtype(dtype)), profile=list(th), aff=aff)
